@@ -14,6 +14,7 @@ def sh(cmd, cwd, env=None, timeout=1200):
 def main():
     prop, n = sys.argv[1], sys.argv[2]
     wt = sys.argv[3] if len(sys.argv) > 3 else '/tmp/mmwt/%s' % prop
+    label = sys.argv[4] if len(sys.argv) > 4 else ''
     src = os.path.join(wt, 'MUTANTS', n)
     out = {'property': prop, 'mutant': n, 'worktree': wt}
     env = dict(os.environ, PYTHONPATH=wt, BASELINE_JOBS=os.environ.get('BASELINE_JOBS', '4'))
@@ -39,7 +40,7 @@ def main():
     out['confirmed'] = bool(ok)
     print(json.dumps(out))
     if ok:
-        dst = '/verif/seeded/%s-%s' % (prop, n)
+        dst = '/verif/seeded/%s-%s%s' % (prop, label, n)
         os.makedirs(dst, exist_ok=True)
         for fn in ('patch.diff', 'demo.py', 'README.md'):
             if os.path.exists(os.path.join(src, fn)):
